@@ -1773,6 +1773,12 @@ class EntityTemplate(Block):
 
                     sig_root: Signal = sig._root
 
+                    if isinstance(sig, Port) and sig.is_input():
+                        raise AssertionError(
+                            f"writing to input port '{sig_root._name}' not allowed"
+                            f" (connected to output '{name}' of entity instantiation: {block.name()})"
+                        )
+
                     if sig_root in written_in:
                         other = written_in[sig_root]
                         current_name = f"entity instantiation: {block.name()}"
